@@ -170,6 +170,77 @@ def value_range(d, env, less):
     return evaluate(d, env)
 
 
+def _meet(a, b):
+    lo, lo_open = (a.lo, a.lo_open) if a.lo > b.lo or (a.lo == b.lo and a.lo_open) else (b.lo, b.lo_open)
+    hi, hi_open = (a.hi, a.hi_open) if a.hi < b.hi or (a.hi == b.hi and a.hi_open) else (b.hi, b.hi_open)
+    return Iv(lo, hi, lo_open, hi_open)
+
+
+def _hull(ivs):
+    lo = min(ivs, key=lambda i: (i.lo, not i.lo_open))
+    hi = max(ivs, key=lambda i: (i.hi, i.hi_open))
+    return Iv(lo.lo, hi.hi, lo.lo_open, hi.hi_open)
+
+
+def iv_operand(b, op, at, env, less, depth=8):
+    """Interval of a MIR operand: the description-based evaluation (which knows the branch facts) met with a structural
+    one that follows definitions in the MIR itself - through variables assigned on several branches (the hull of the
+    branches) and through tuples built on those branches (`let (g, k) = match kind { .. }`)."""
+    from .facts import op_local, is_const
+    d = describe(b, op, depth=9, at=at)
+    iv = value_range(d, env, less)
+    if depth <= 0 or is_const(op) or 'pl' not in op:
+        return iv
+    pl = op['pl']
+    l = pl['l']
+    if 1 <= l <= b.arg_count:
+        return iv
+    proj = pl['p']
+    if proj and not (len(proj) == 1 and proj[0][0] == 'field'):
+        return iv
+    ds = b.defs().get(l, [])
+    if not ds or len(ds) > 6:
+        return iv
+    parts = []
+    for dd in ds:
+        if dd[0] == 'call':
+            if proj:
+                return iv
+            t = dd[2]
+            args = [iv_operand(b, a, dd[1], env, less, depth - 1) for a in t['args']]
+            term = '%s(%s)' % (callee_path(t), ', '.join('@%d' % i for i in range(len(args))))
+            parts.append(value_range(term, dict(('@%d' % i, a) for i, a in enumerate(args)), less))
+            continue
+        rv = dd[3]['rv']
+        at2 = dd[1]
+        if proj:
+            if rv['k'] == 'agg' and rv.get('ak') == 'tuple' and proj[0][1] < len(rv['ops']):
+                parts.append(iv_operand(b, rv['ops'][proj[0][1]], at2, env, less, depth - 1))
+                continue
+            if rv['k'] == 'use' and 'pl' in rv['op'] and not rv['op']['pl']['p']:
+                parts.append(iv_operand(b, {'k': 'copy', 'pl': {'l': rv['op']['pl']['l'], 'p': proj, 'ty': pl.get('ty')}}, at2, env, less, depth - 1))
+                continue
+            return iv
+        if rv['k'] in ('use', 'cast'):
+            if rv['k'] == 'cast' and str(rv.get('ck', '')).startswith('IntToFloat') and 'pl' in rv['op'] and str(rv['op']['pl'].get('ty', '')).startswith('u'):
+                parts.append(_meet(POS, iv_operand(b, rv['op'], at2, env, less, depth - 1)))
+            else:
+                parts.append(iv_operand(b, rv['op'], at2, env, less, depth - 1))
+        elif rv['k'] == 'bin':
+            x = iv_operand(b, rv['a'], at2, env, less, depth - 1)
+            y = iv_operand(b, rv['b'], at2, env, less, depth - 1)
+            opn = {'AddWithOverflow': 'Add', 'SubWithOverflow': 'Sub', 'MulWithOverflow': 'Mul'}.get(rv['op'], rv['op'])
+            parts.append(value_range('%s(@0, @1)' % opn, {'@0': x, '@1': y}, less))
+        elif rv['k'] == 'un' and rv['op'] == 'Neg':
+            x = iv_operand(b, rv['a'], at2, env, less, depth - 1)
+            parts.append(value_range('Neg(@0)', {'@0': x}, less))
+        else:
+            return iv
+    if not parts:
+        return iv
+    return _meet(iv, _hull(parts)) if len(ds) == 1 else _meet(iv, _hull(parts)) if all(True for _ in parts) else iv
+
+
 def excludes_zero(iv):
     return iv.lo > 0 or iv.hi < 0 or (iv.lo == 0 and iv.lo_open and iv.lo != -INF) or (iv.hi == 0 and iv.hi_open and iv.hi != INF)
 
@@ -261,15 +332,86 @@ def collect_sites(F, A):
     return sites, unclassified, nbodies
 
 
+FACTS = [None]
+CONSUMERS = ('for_each', 'map', 'fold', 'try_for_each', 'all', 'any', 'filter', 'filter_map', 'for_each_mut', 'inspect', 'position')
+
+
+def resolve_capture(b, op):
+    """An operand of a closure body that is (a copy / dereference of) a captured variable -> (owner body, block that
+    builds the closure, operand naming the captured variable in the owner, local of the closure value), else None."""
+    from .facts import op_local
+    F = FACTS[0]
+    if F is None or '::{closure' not in b.path or 'pl' not in op:
+        return None
+    pl = op['pl']
+    for _ in range(6):
+        if pl['l'] == 1 and len(pl['p']) >= 2 and pl['p'][0][0] == 'deref' and pl['p'][1][0] == 'field' and str(pl['p'][1][2]).startswith('^'):
+            idx = pl['p'][1][1]
+            break
+        if pl['l'] == 1 and pl['p'] and pl['p'][0][0] == 'field' and str(pl['p'][0][2]).startswith('^'):
+            idx = pl['p'][0][1]
+            break
+        d = b.single_def(pl['l'])
+        if d is None or d[0] != 'stmt' or d[3]['rv']['k'] not in ('use', 'cast') or 'pl' not in d[3]['rv']['op']:
+            return None
+        pl = d[3]['rv']['op']['pl']
+    else:
+        return None
+    owner = F.body(b.path[:b.path.rfind('::{closure')])
+    if owner is None:
+        return None
+    for x, si, st in owner.stmts():
+        if st['k'] == 'assign' and st['rv']['k'] == 'agg' and st['rv'].get('ak') == 'closure' and st['rv'].get('closure') == b.path:
+            if idx >= len(st['rv']['ops']):
+                return None
+            cap = st['rv']['ops'][idx]
+            # captured by reference: `_k = &var` -> the variable itself
+            l = op_local(cap)
+            d = owner.single_def(l) if l is not None else None
+            if d and d[0] == 'stmt' and d[3]['rv']['k'] == 'ref':
+                cap = {'k': 'copy', 'pl': d[3]['rv']['pl']}
+            return owner, x, cap, st['lhs']['l']
+    return None
+
+
+def capture_in_own_loop(owner, at, cap, clocal):
+    """The closure is the body of an iterator consumer (`for_each`, ...) over the slice whose length the captured value is."""
+    d = describe(owner, cap, depth=16, at=at)
+    name, args = parse_term(d)
+    if args is None or name.split('::')[-1] != 'len' or len(args) != 1:
+        return False
+    inner = args[0].lstrip('&')
+    if not inner or '?' in inner:
+        return False
+    from .facts import op_local
+    for x, t in owner.calls():
+        nm = (t.get('callee') or {}).get('name')
+        if nm in CONSUMERS and any(op_local(a) == clocal or ('closure' in describe(owner, a, depth=3, at=x)) for a in t['args'][1:]):
+            if inner in describe(owner, t['args'][0], depth=16, at=x):
+                return True
+    return False
+
+
 def decide(site):
     """-> (auto-discharged?, operand description, interval text / reason)"""
     b, bb = site.body, site.bb
     if site.kind == 'dep':
         return False, site.desc, site.extra
+    if site.operand is not None:
+        rc = resolve_capture(b, site.operand)
+        if rc is not None:
+            owner, at, cap, clocal = rc
+            if site.kind == 'div' and capture_in_own_loop(owner, at, cap, clocal):
+                return True, describe(owner, cap, depth=9, at=at), 'length of the slice whose iterator consumer runs this closure (>= 1 when it runs)'
+            # evaluate the captured value where the closure is built
+            import copy
+            s2 = copy.copy(site)
+            s2.body, s2.bb, s2.operand = owner, at, cap
+            return decide(s2)
     d = describe(b, site.operand, depth=9, at=bb)
     dec = dominating_decisions(b, bb)
     env, nonzero, less = _env(dec)
-    iv = value_range(d, env, less)
+    iv = iv_operand(b, site.operand, bb, env, less)
     k = site.kind
     if k == 'div':
         if excludes_zero(iv) or d in nonzero:
@@ -283,7 +425,7 @@ def decide(site):
         return iv.lo > 0 or (iv.lo == 0 and iv.lo_open), d, 'argument in %r' % iv
     if k == 'pow':
         e = describe(b, site.extra, depth=6, at=bb) if site.extra is not None else '?'
-        ev = value_range(e, env, less)
+        ev = iv_operand(b, site.extra, bb, env, less) if site.extra is not None else value_range(e, env, less)
         if iv.lo > 0 or (iv.lo >= 0 and ev.lo >= 0):
             return True, d, 'base in %r, exponent in %r' % (iv, ev)
         return False, d + ' ^ ' + e, 'base in %r, exponent in %r: 0 to a negative power / negative base to a fractional power not excluded' % (iv, ev)
@@ -296,6 +438,7 @@ def decide(site):
 
 def run_singular(R, F, A, sites_table, rule='A.singular', fn_filter=None, floor=None, check_runner=None):
     """Raise / discharge the singular-site obligations.  `sites_table`: the `site` entries of tables/discharge.jsonl."""
+    FACTS[0] = F
     sites, unclassified, nbodies = collect_sites(F, A)
     groups = {}
     stats = {'sites': 0, 'auto': 0, 'table': 0, 'undischarged': 0, 'bodies': nbodies}
